@@ -227,6 +227,40 @@ theorem denied_forwarded_address_refuses (P : Parsers) (schemes : List (List Cha
     have := Props.C12.xff_every_element_checked P t.rules remote host _ he hs hden line hline x hx hne ip hp
     rw [this] at hd; cases hd
 
+/-! ### The shape of the source -/
+
+/-- The model's `accessDeniedHTTP` (every element of every line) is the code as written (join the lines with commas,
+skip the loop when the joined text is empty, split at commas) — for every parser that does not read the empty text
+as an address. -/
+theorem accessDeniedHTTP_eq_lit (P : Parsers) (hP : P.parseIP [] = none) (r : Rules) (remote : List Char)
+    (xff : List (List Char)) : accessDeniedHTTP P r remote xff = accessDeniedHTTPLit P r remote xff := by
+  unfold accessDeniedHTTP accessDeniedHTTPLit
+  split
+  · rfl
+  · cases hs : P.splitHostPort remote with
+    | none => rfl
+    | some host =>
+      simp only
+      split
+      · rfl
+      · cases xff with
+        | nil => simp [joinComma, xffElems, xffDenied]
+        | cons l ls =>
+          by_cases hj : joinComma (l :: ls) = []
+          · have hall := joinComma_nil_iff (l :: ls) hj
+            have : ∀ x ∈ xffElems (l :: ls), x = [] := by
+              intro x hx
+              simp only [xffElems, List.mem_flatMap] at hx
+              obtain ⟨line, hl, hx⟩ := hx
+              rw [hall line hl] at hx
+              simpa [splitOn] using hx
+            simp [hj, xffDenied_all_empty P r host _ hP this]
+          · have hne : (joinComma (l :: ls)).isEmpty = false := by
+              cases hh : joinComma (l :: ls) with
+              | nil => exact absurd hh hj
+              | cons _ _ => rfl
+            simp only [hne, Bool.false_eq_true, ↓reduceIte, xffElems, splitOn_joinComma]
+
 /-! ### Non-vacuity -/
 section examples
 open Parse
@@ -267,6 +301,9 @@ example : authorizedReq "basic".toList schemes1
 example : serveReq goParsers schemes1 (fun _ => some t1) (fun _ => true) "127.0.0.1:9".toList
     { headers := (hXFF, (String.intercalate "," (List.replicate 16 "127.0.0.2") ++ ",9.9.9.9").toList) :: good.headers }
     = .forbidden := by decide
+example : goParsers.parseIP [] = none := by decide
+example : accessDeniedHTTPLit goParsers t1.rules "127.0.0.1:9".toList ["127.0.0.2".toList, [], " 9.9.9.9,".toList] = true := by decide
+example : accessDeniedHTTPLit goParsers t1.rules "127.0.0.1:9".toList [[], []] = false := by decide
 example : canonKey "x-forwarded-for".toList = hXFF := by decide
 example : canonKey "AUTHORIZATION".toList = hAuthorization := by decide
 example : canonKey "a b".toList = "a b".toList := by decide
